@@ -52,6 +52,8 @@ def prog_ops(rng, kind, label, actors, gwi):
     elif kind == "sleep":
         ops.append(["sleep", 1000.0])
     elif kind == "swallow":
+        if rng.random() < 0.5:
+            ops.append(["sig_ignore_term"])  # ... and ignores SIGTERM as well: only SIGKILL helps
         ops.append(["swallow_busy"])
     elif kind == "threads":
         sub = [["busy", None]] if rng.random() < 0.5 else [["sleep", 1000.0]]
